@@ -95,6 +95,14 @@ CHECKS = {
                  "equals Mathlib's Matrix.det for every size (the shipped cyclic-minor recursion does not: det_old_wrong). "
                  "Weights come from numpy on unit vectors, product groups from numpy on index arrays.",
          "note": BASE_NOTE + " Known findings D21 (matmul with 1-d operands) and D22 (prod over an axis tuple) are pinned by the package's docstrings/tests and reported as KNOWN-FINDING."},
+ "C11": {"ref": "5/C11", "technique": "Lean 4 pattern theorems + decide over the regenerated registries (every registered function classified) + correspondence against numpy on constants",
+         "text": "registry_classified (decide over the registries regenerated from /repo): every registered function has a "
+                 "dispatch pattern; columnwise_const / den_constRows / tonumpy_reads_constant_row prove the column-wise "
+                 "pattern on constants (f 0 = 0 keeps retained zero columns zero; the value is read from the all-zero "
+                 "exponent row). The remaining patterns reuse C07 (ordering), C09 (gather), C10 (linear/product). The run "
+                 "calls every registered function on constant polynomials next to numpy on the raw arrays over axis / "
+                 "keepdims grids, and the numeric division functions with non-constant divisors (FeatureNotSupported).",
+         "note": BASE_NOTE + " Pattern-level: theorems cover the patterns, the per-function assignment is tied by the run. Known findings D9b, D21, D22 are pinned by the package's own tests/docstrings."},
 }
 CLAIMED = set(CHECKS)
 NOT_APPLICABLE = {f"C{i:02d}": "check under construction in this session (will be claimed once built)"
